@@ -11,7 +11,7 @@ use serde_json::{json, Value};
 use crate::common::{fnv, Engine, RunOutcome};
 use crate::rng::Rng;
 
-use prog::{gen_history, gen_program_w, gen_program_x, Class, GenCfg, Op, Scenario, Step};
+use prog::{gen_history, gen_program_m, gen_program_v, gen_program_w, gen_program_x, Class, GenCfg, Op, Scenario, Step};
 
 pub struct BuildEngine;
 
@@ -31,6 +31,10 @@ fn cfg_for(config: &str) -> GenCfg {
     "td-crash" => { c.crash = true; }
     "x-hidden-td" | "x-overlap-td" | "x-cycle-td" | "x-any-td" => { c.class = Class::X; }
     "x-hidden-bu" | "x-overlap-bu" | "x-cycle-bu" | "x-any-bu" => { c.class = Class::X; c.bottom_up = 50; c.td_between = true; }
+    "v-td" => { c.class = Class::V; }
+    "v-bu" => { c.class = Class::V; c.bottom_up = 50; c.td_between = true; }
+    "m-td" => { c.class = Class::M; }
+    "m-bu" => { c.class = Class::M; c.bottom_up = 60; c.all_roots_td = true; }
     "td-replay" => { c.replays = 4; }
     "bu-replay" => { c.replays = 4; c.bottom_up = 60; c.all_roots_td = true; }
     "bu-mixed-replay" => { c.replays = 4; c.bottom_up = 50; c.td_between = true; }
@@ -55,6 +59,8 @@ impl Engine for BuildEngine {
     let cfg = cfg_for(config);
     let program = match cfg.class {
       Class::X => { let want = match config { c if c.starts_with("x-hidden") => rng.below(2), c if c.starts_with("x-overlap") => 2, c if c.starts_with("x-cycle") => 3, _ => rng.below(4) }; gen_program_x(rng, &cfg, want) }
+      Class::M => gen_program_m(rng, &cfg),
+      Class::V => gen_program_v(rng, &cfg),
       _ => gen_program_w(rng, &cfg),
     };
     let (init, steps, faults) = gen_history(rng, &program, &cfg);
@@ -116,6 +122,11 @@ impl Engine for BuildEngine {
           for branch in [then, els] { let mut o = ops.to_vec(); o.splice(i..=i, branch.iter().cloned()); out.push(o); }
           for v in variants(then) { let mut o = ops.to_vec(); if let Op::If { then, .. } = &mut o[i] { *then = v; } out.push(o); }
           for v in variants(els) { let mut o = ops.to_vec(); if let Op::If { els, .. } = &mut o[i] { *els = v; } out.push(o); }
+        }
+        if let Op::Switch { cases, .. } = &ops[i] {
+          for (ci, case) in cases.iter().enumerate() {
+            for v in variants(case) { let mut o = ops.to_vec(); if let Op::Switch { cases, .. } = &mut o[i] { cases[ci] = v; } out.push(o); }
+          }
         }
       }
       out
